@@ -63,6 +63,15 @@ impl Rng {
     pub fn c32(&mut self) -> u32 {
         if self.chance(1, 3) { self.pick(&[0u32, 1, 0xFF, 0xFFFF, 0x1_0000, 0xFF_FFFF, 0x100_0000, 0x8000_0000, 0xFFFF_FFFF, 0x0001_0203]) } else { (self.next() >> 16) as u32 }
     }
+    /// a 16-byte UUID: the nil UUID, all ones and corner bytes over-weighted
+    pub fn uuid(&mut self) -> Vec<u8> {
+        match self.below(8) {
+            0 | 1 => vec![0u8; 16],
+            2 => vec![0xFFu8; 16],
+            3 | 4 => self.cbytes(16),
+            _ => self.bytes(16),
+        }
+    }
     pub fn fork(&mut self) -> Rng {
         Rng::new(self.next())
     }
